@@ -98,23 +98,26 @@ def step (f : Family) (line : String) : Family × String :=
     | some g, some et0, some oa0 =>
       let k := width (g != 0)
       let e0 : Eff := fresh (source f et0 oa0)
-      let stepOp (acc : Option Eff) (w : String) : Option Eff :=
-        acc.bind fun e =>
+      -- the state also remembers the current type and attribute: `T<et>` / `A<oa>` assign only one of them
+      let stepOp (acc : Option (Eff × Option Int × Option Int)) (w : String) : Option (Eff × Option Int × Option Int) :=
+        acc.bind fun (e, et, oa) =>
           let body := (w.drop 1).toString
           match w.front with
-          | 'q' => (parseInt? body).map (setQuantity k e)
-          | 'c' => (parseInt? body).map (setClass e)
-          | 'a' => (parseInt? body).map (setAmount e)
-          | 'v' => (parseInt? body).map (setVar e)
+          | 'q' => (parseInt? body).map (fun v => (setQuantity k e v, et, oa))
+          | 'c' => (parseInt? body).map (fun v => (setClass e v, et, oa))
+          | 'a' => (parseInt? body).map (fun v => (setAmount e v, et, oa))
+          | 'v' => (parseInt? body).map (fun v => (setVar e v, et, oa))
+          | 'T' => (parseOptInt? body).map (fun et' => (retarget f e et' oa, et', oa))
+          | 'A' => (parseOptInt? body).map (fun oa' => (retarget f e et oa', et, oa'))
           | 't' =>
             match body.splitOn ":" with
             | [a, b] => match parseOptInt? a, parseOptInt? b with
-              | some et, some oa => some (retarget f e et oa)
+              | some et', some oa' => some (retarget f e et' oa', et', oa')
               | _, _ => none
             | _ => none
           | _ => none
-      match (ops.splitOn ";").foldl stepOp (some e0) with
-      | some e => (f, s!"src={showSrc e.src} q={showExO (storedQuantity k e)} v={showExI (storedVariable k e)}")
+      match (ops.splitOn ";").foldl stepOp (some (e0, et0, oa0)) with
+      | some (e, _, _) => (f, s!"src={showSrc e.src} q={showExO (storedQuantity k e)} v={showExI (storedVariable k e)}")
       | none => (f, "bad-op")
     | _, _, _ => (f, "bad-op")
   | _ => (f, "bad-op")
